@@ -66,6 +66,12 @@ CLAIMED = {
             "Seeded exploration: the legality oracle is exact; the statistical oracles are deterministic functions of the seed "
             "with thresholds of 6.5 sigma (KS 3.3), so a pass or failure is exactly repeatable. Power: single cases see "
             "propensity errors of ~5-10%, the pooled statistics of the quick tier ~2%, the thorough tier below 1%.", "5 (C07)"),
+    "C12": ("Dictionary, JSON and file round-trips preserve the model",
+            "stateful model of a sandbox directory tree (save / multi-file split / chdir / move / copy / load, relative and "
+            "absolute paths) driven by seeded op sequences against the real save/load functions; physical content compared in SI",
+            "Seeded exploration over objects built from rendered dictionaries (network, space, system, script, trajectory of "
+            "a real short simulation) and over file-system histories; the I/O seam (directory tree, cwd, relocation) is owned "
+            "by the simulator. Not decided: key-alias interchangeability and documented defaults (static clauses).", "5 (C12)"),
 }
 
 NA = {
